@@ -120,6 +120,26 @@ def events_for(darsia, rng, shape, table, h, omode, kind, halo, tid, sample_sing
         lo = lat([dom[2 * c] for c in range(n)])[0]
         hi = lat([dom[2 * c + 1] for c in range(n)])[0]
         ev.append(dict(base, tid=tid, op="domain", lo=lo, hi=hi))
+    # the geometry is changed on the SAME image object after its coordinate system has been used: origin moved by a few
+    # voxels (tiny relative to a far-away origin), then reset to the default - every later conversion follows the new geometry
+    regeo = []
+    shift = np.zeros(n)
+    for m in range(n):
+        c, sgn = table[m]
+        shift[c - 1] = rng.randint(1, 3) * h[m]
+    o2 = np.asarray(img.origin, dtype=float) + shift
+    img.update_metadata(origin=darsia.Coordinate(o2.copy()) if rng.random() < 0.5 else list(o2))
+    regeo.append(("moved", o2))
+    for label, onew in regeo:
+        cs2 = img.coordinatesystem
+        lat2 = lambda x, onew=onew: to_lattice(x, onew, table, h)   # noqa: E731
+        ev.append(dict(base, tid=tid, op="corners", origin=lat2(img.origin)[0], opposite=lat2(img.opposite_corner)[0], vsize=vs, steps=steps,
+                       origin0=lat2(cs2.coordinate(zero))[0], after=label))
+        if ev[-1]["origin0"] != ev[-1]["origin"]:
+            ev[-1]["origin"] = [99999999] * n
+        ev.append(dict(base, tid=tid, op="coordinate", form="batch-array:after-" + label, pts=P4, res=lat2(cs2.coordinate(V))))
+        X2 = from_lattice(K, onew, table, h)
+        ev.append(dict(base, tid=tid, op="voxel", form="batch-array:after-" + label, pts=Kl, res=np.asarray(cs2.voxel(X2)).astype(int).tolist()))
     # single-point call forms on a sample
     for i in rng.sample(range(len(V)), min(sample_single, len(V))):
         v = V[i]
